@@ -60,6 +60,18 @@ func scenarios(prop, tier string) []*Scenario {
 			r = append(r, &Scenario{Name: baseName(base), Cfg: hdr.Config{MaxBranchDepth: 144, Base: base}, N: pick(3, 4), M: 1,
 				Maint: []hdr.Op{opClean, opReload}, Attach: []int{0, -1, -2}, Slots: []string{"a", "H"}})
 		}
+		for _, base := range []int{9997, 9998} {
+			r = append(r, &Scenario{Name: baseName(base) + "/auto-clean-boundary", Cfg: hdr.Config{MaxBranchDepth: 144, Base: base}, N: pick(4, 5),
+				Attach: []int{0, -1}, Slots: []string{"a", "H"}})
+		}
+		// stale side branches around the prune boundary (tip deeper than, at, and above the retained
+		// depth when Clean prunes), which later receive enough headers to overtake
+		r = append(r,
+			&Scenario{Name: "genesis/grow+growside-prune-depth-3", Cfg: hdr.Config{MaxBranchDepth: 2}, N: pick(4, 5), M: 1, Grows: 1, GrowBy: 4, GrowSides: 1, GrowSideBy: 4,
+				Maint: []hdr.Op{{K: "cleand", D: 3}}, Slots: []string{"a", "H"}},
+			&Scenario{Name: "genesis/grow+growside-prune-depth-2", Cfg: hdr.Config{MaxBranchDepth: 1}, N: pick(4, 5), M: 1, Grows: 1, GrowBy: 3, GrowSides: 1, GrowSideBy: 3,
+				Maint: []hdr.Op{{K: "cleand", D: 2}}, Slots: []string{"a", "H"}},
+		)
 		// marking and unmarking (C17's operations) inside C01's histories: a header that was removed
 		// and is acceptable again must be selected like any other
 		r = append(r, &Scenario{Name: "genesis/mark-unmark", Cfg: hdr.Config{MaxBranchDepth: 144}, N: pick(4, 5), Marks: 2, M: 1,
@@ -75,6 +87,10 @@ func scenarios(prop, tier string) []*Scenario {
 			&Scenario{Name: "genesis/clean+reload", Cfg: hdr.Config{MaxBranchDepth: 144}, N: pick(5, 6), Subs: 1, M: pick(1, 2),
 				Maint: []hdr.Op{opClean, opReload}},
 		)
+		// a subscriber that lags behind by more than its buffer holds (10000 announcements): the
+		// producer has to wait for it, nothing is dropped; then forks and extensions on top
+		r = append(r, &Scenario{Name: "genesis/lagging-subscriber", Cfg: hdr.Config{MaxBranchDepth: 144}, N: 2, Subs: 1, Lag: 12000,
+			Attach: nil, Slots: []string{"a", "H"}, OnlyTipParents: 2})
 		// the automatic clean at every 10000th height runs inside ProcessHeader, between the change
 		// of the best chain and its announcement: tips just below 10000, forks and extensions across it
 		for _, base := range []int{9997, 9998} {
@@ -94,6 +110,10 @@ func scenarios(prop, tier string) []*Scenario {
 		// a restart with a longer configured invalid list than the one persisted by the previous run
 		r = append(r, &Scenario{Name: "genesis/invalid-list-extended-at-restart", Cfg: hdr.Config{MaxBranchDepth: 144, Invalid: []string{"G/a/a"}, InvalidLater: []string{"G/a/b", "G/b"}},
 			N: pick(4, 5), M: 1, Maint: []hdr.Op{opReload}, Probes: true})
+		// headers marked invalid at run time (anywhere in a branch), then offered again together with
+		// their children, unmarked, offered again
+		r = append(r, &Scenario{Name: "genesis/marked-at-run-time", Cfg: hdr.Config{MaxBranchDepth: 144}, N: pick(4, 5), Marks: 2, M: 1,
+			Maint: []hdr.Op{opClean}, Probes: true, Slots: []string{"a", "H"}})
 		for _, s := range r {
 			s.oracles = []oracle{oracleC08verdict, oracleC08nochange}
 		}
@@ -111,6 +131,10 @@ func scenarios(prop, tier string) []*Scenario {
 				Maint: []hdr.Op{opClean, opReload}, Attach: []int{0, -1, -2}, Slots: []string{"a", "H"}})
 		}
 		r = append(r, fileBoundaryRestart(), prunedFiles())
+		// lookups after a header on a pruned branch was marked invalid (history is restored from
+		// storage before the branch is trimmed)
+		r = append(r, &Scenario{Name: "genesis/mark-after-prune-depth-3", Cfg: hdr.Config{MaxBranchDepth: 2}, N: pick(3, 4), Marks: 1, M: 1, Grows: 1, GrowBy: 4,
+			Maint: []hdr.Op{{K: "cleand", D: 3}, {K: "reloadd", D: 3}}, Slots: []string{"a", "H"}})
 		for _, s := range r {
 			s.oracles = []oracle{oracleC09}
 			// lookups are also made after every operation of the history, not only in the state under
@@ -141,13 +165,23 @@ func scenarios(prop, tier string) []*Scenario {
 				Maint: []hdr.Op{opClean}, Attach: []int{0, -1, -2}, Slots: []string{"a", "H"}})
 		}
 		r = append(r, prunedFiles())
+		// the automatic Clean inside ProcessHeader at heights that are multiples of 10000, with forks
+		// and reorganisations pending around it
+		boundaryBases := []int{9998}
+		if !quick {
+			boundaryBases = []int{9997, 9998}
+		}
+		for _, base := range boundaryBases {
+			r = append(r, &Scenario{Name: baseName(base) + "/auto-clean-boundary", Cfg: hdr.Config{MaxBranchDepth: 144, Base: base}, N: pick(3, 5), M: 1,
+				Maint: []hdr.Op{opClean}, Attach: []int{0, -1}, Slots: []string{"a", "H"}})
+		}
 		for _, s := range r {
 			s.oracles = []oracle{oracleC10, oracleC01, oracleC08verdict, oracleC09}
 		}
 	case "C11":
 		r = append(r,
 			&Scenario{Name: "genesis/reload-anywhere", Cfg: hdr.Config{MaxBranchDepth: 144}, N: pick(5, 6), M: pick(2, 3),
-				Maint: []hdr.Op{opReload, opClean}},
+				Maint: []hdr.Op{opReload, opClean, opSave}},
 			&Scenario{Name: "genesis/initload", Cfg: hdr.Config{MaxBranchDepth: 144, InitLoad: true}, N: pick(5, 6), M: 2,
 				Maint: []hdr.Op{opReload}},
 			&Scenario{Name: "genesis/prune-depth-3", Cfg: hdr.Config{MaxBranchDepth: 2}, N: pick(6, 7), M: pick(2, 3),
@@ -264,6 +298,10 @@ func scenarios(prop, tier string) []*Scenario {
 	case "C12":
 		// a reorganisation across a header-file boundary (fork below height 1000 of a saved chain of
 		// 1005 headers overtakes it), saved, with a stop at every storage call
+		// the same with a fork of fewer but much heavier headers: the best chain moves to a lower
+		// height, back below the file boundary (Save then removes the file above)
+		r = append(r, &Scenario{Name: "base-1005/reorg-to-a-lower-height-across-file-boundary", Cfg: hdr.Config{MaxBranchDepth: 144, Base: 1005}, N: 3, M: 1,
+			Maint: []hdr.Op{opSave, opClean}, Attach: []int{-10}, Slots: []string{"Q"}, OnlyTipParents: 1})
 		r = append(r, &Scenario{Name: "base-1005/reorg-across-file-boundary", Cfg: hdr.Config{MaxBranchDepth: 144, Base: 1005}, N: 1, M: 1, GrowSides: 1, GrowSideBy: 6,
 			Maint: []hdr.Op{opSave, opClean}, Attach: []int{-10}, Slots: []string{"H"}})
 		r = append(r,
